@@ -23,9 +23,9 @@ var ListPaths = map[string]string{
 
 // Namespaces: module of a node by schema path prefix (most specific wins); default module vfa.
 var ModuleOf = map[string]string{
-	"/sys/b-leaf":   "vfb",
-	"/sys/b-cont":   "vfb",
-	"/if/b-mode":    "vfb",
+	"/sys/b-leaf":    "vfb",
+	"/sys/b-cont":    "vfb",
+	"/if/b-mode":     "vfb",
 	"/if/cfg/b-flag": "vfb",
 }
 
